@@ -12,6 +12,7 @@ func init() {
 	vregister("H_C10_atomic", H_C10_atomic)
 	vregister("H_C16_names", H_C16_names)
 	vregister("H_C16_effects", H_C16_effects)
+	vregister("H_C16_remove_occupied", H_C16_remove_occupied)
 }
 
 func vValidRaw(kind string) *cdi.Spec {
@@ -178,6 +179,48 @@ func H_C16_effects() {
 			vassert("removing-a-missing-file-succeeds", c.RemoveSpec(name) == nil || vRemoveFailedForOtherReason())
 		}
 	}
+}
+
+// Pre-existing content under the very name a Spec would get: a non-empty directory called like the Spec file. Removing
+// the Spec by name deletes at most that one directory entry and nothing below or beside it (today: the removal fails
+// with "directory not empty" and touches nothing).
+func H_C16_remove_occupied() {
+	vendor, class := "vendor.com", "class"
+	name := GenerateTransientSpecName(vendor, class, "id")
+	switch nondetChoice("ext", 3) {
+	case 1:
+		name += ".json"
+	case 2:
+		name += ".yaml"
+	}
+	wantBase := name
+	if e := filepath.Ext(name); e != ".json" && e != ".yaml" {
+		wantBase += ".yaml"
+	}
+	last := "/vfs/run"
+	target := last + "/" + wantBase
+	vResetDisk(last, true)
+	occupied := nondetBool("non-empty")
+	vDisk[target] = &vEnt{exists: true, isDir: true}
+	if occupied {
+		vDisk[target+"/keep.txt"] = &vEnt{exists: true, old: true}
+	}
+	vDisk[last+"/other.json"] = &vEnt{exists: true, old: true}
+	c := vWriterCache("/vfs/etc", last)
+	vFaulted = false
+	rerr := c.RemoveSpec(name)
+	vreach("remove-occupied-returned")
+	for _, p := range vTouched {
+		vassert("remove-touches-only-the-target", p == target)
+	}
+	if occupied {
+		k := vDisk[target+"/keep.txt"]
+		vassert("content-below-the-name-untouched", k != nil && k.exists && k.old)
+		_, still := vDisk[target]
+		vassert("occupied-name-is-not-reported-removed", !(rerr == nil && still))
+	}
+	o := vDisk[last+"/other.json"]
+	vassert("other-entries-untouched", o != nil && o.exists && o.old)
 }
 
 // RemoveSpec of an absent file must succeed; the stub only fails with not-exist in that situation
